@@ -3,9 +3,20 @@
 import json, os, glob, sys
 V = os.path.dirname(os.path.abspath(__file__))
 REPO = os.environ.get("VERIF_REPO", "/repo")
-def make(dst=None, skip_exports=()):
+# harness files that reach into internal/crossbar through the export wrappers (left out of the black-box harness)
+NEEDS_CROSSBAR_EXPORTS = {"mode_hub.go", "mode_relay.go", "mode_leak.go", "mode_stress.go", "mode_expiry.go", "mode_sched.go", "mode_status.go"}
+BLACKBOX_MISSING_MODES = {"hub", "path", "relay", "relay-raw", "leak", "stress", "expiry", "sched", "status", "status-lag", "status-frame", "lag"}
+
+
+def make(dst=None, skip_exports=(), blackbox=False):
+    """blackbox=True: the harness without the in-package wrappers of internal/crossbar and without the modes that need them —
+    what is left (relaymain, the store modes, the host-side modes) still builds when a change to /repo alters the hub's internals"""
     rep = {}
+    if blackbox:
+        skip_exports = tuple(skip_exports) + ("internal__crossbar",)
     for f in sorted(glob.glob(V + "/harness/*.go")):
+        if blackbox and os.path.basename(f) in NEEDS_CROSSBAR_EXPORTS:
+            continue
         rep[f"{REPO}/cmd/verifdrv/{os.path.basename(f)}"] = f
     for d in sorted(glob.glob(V + "/harness/export/*")):
         pkg = os.path.basename(d)
